@@ -152,6 +152,8 @@ def serialize(nodes, out=None, spelling=None):
         if k == "text":
             _parts_src(out, n[1], enc_text, "text")
         elif k == "raw":
+            out.sites.append({"id": None, "offset": out.pos, "text": n[1],
+                              "kind": "raw"})
             out.add(n[1])
         elif k == "comment":
             out.add("<!--")
